@@ -58,6 +58,7 @@ import PS.Proofs.Enum.UHeaps
 import PS.Proofs.Enum.UOrderCheck
 import PS.Proofs.Enum.UProb
 import PS.Proofs.Enum.UCompleteRun
+import PS.Proofs.Enum.UPrefix
 namespace PS.C03HS
 open PS PS.G PS.HS
 
@@ -574,6 +575,51 @@ theorem C03_HS_U_more_probable_before (E : UHS.Env U Rat) (rank : UHS.UNT U → 
     · have := (List.pairwise_cons.mp hpw).1 p h3
       exact absurd hlt (Rat.not_lt.mpr this)
 
+/-- **PREFIX COMPLETENESS** of the unambiguous-grammar machine (acyclic unambiguous grammars, several start
+    symbols, no threshold, no filter; every fuel, every prefix of the run, stopped or not): once a program
+    `q` has been yielded, every member whose key is strictly better than the key of `q` has been yielded.
+    Proof: `UHS.dominated` — in every quiescent state every derivable program that was not popped for a
+    non-terminal is not better than some element of its heap (induction on the rank; a walk along the
+    successor chains of the argument positions, measured by the chain steps left), hence nothing better
+    than a popped program is left (`UHS.prefixOK_all`); at the start heap, the entry of a start symbol is
+    not worse than anything not yet taken from it and not better than anything taken (`UHS.OG.heap_ge`). -/
+theorem C03_HS_U_prefix_complete (E : UHS.Env U π) (rank : UHS.UNT U → Nat) (Good : π → Prop) (R : RHyp E rank Good)
+    (fuel k : Nat) (s' : UHS.St U π) (out : List Prog) (b : Bool)
+    (h : UHS.take E fuel k (UHS.St.empty E.G) [] = some (s', out, b)) (p q : Prog) (hq : q ∈ out) (kp kq : π)
+    (hkp : StartKey E p kp) (hkq : StartKey E q kq) (hlt : E.ops.lt kp kq = true) : p ∈ out :=
+  take_prefix_complete R fuel k s' out b h p q hq kp kq hkp hkq hlt
+
+/-- the statement of C03 for `UHeapSearch` in terms of the specification: in a prefix `l1 ++ q :: l2` of the
+    enumeration, every member of probability `U.probU` strictly larger than that of `q` is in `l1` — once a
+    program of probability x has been produced, every program of strictly larger probability has been -/
+theorem C03_HS_U_prefix_complete_probU (E : UHS.Env U Rat) (rank : UHS.UNT U → Nat) (hops : E.ops = UHS.probOps 0)
+    (R : RHyp E rank (fun v : Rat => 0 ≤ v)) (hkeys : ∀ nt F, ((UHS.altsOf E nt F).map (·.1)).Nodup) (d0 : UHS.UNT U)
+    (hun : ∀ p, PS.U.unambiguousOn (E.G.toUCFG d0) p = true) (fuel k : Nat) (s' : UHS.St U Rat) (l1 l2 : List Prog)
+    (q p : Prog) (b : Bool) (h : UHS.take E fuel k (UHS.St.empty E.G) [] = some (s', l1 ++ q :: l2, b))
+    (hp : PS.U.genU (E.G.toUCFG d0) p = true)
+    (hlt : PS.U.probU (E.G.toUCFG d0) E.G.toTags q < PS.U.probU (E.G.toUCFG d0) E.G.toTags p) : p ∈ l1 := by
+  have hsound := ((sinv_empty E).take R.ohyp.ghyp k (by intro x hx; cases hx) h).2
+  have hsorted := C03_HS_U_sorted_probU E rank hops R hkeys d0 hun fuel k s' _ b h
+  obtain ⟨nt, w, hw, pr, hpr⟩ := (derStart_iff_genU E d0 p).mpr hp
+  obtain ⟨nt', w', hw', pr', hpr'⟩ := hsound q (by simp)
+  have e1 := startKey_probU E 0 hops hkeys d0 p (hun p) nt w pr hw hpr
+  have e2 := startKey_probU E 0 hops hkeys d0 q (hun q) nt' w' pr' hw' hpr'
+  have hmem : p ∈ l1 ++ q :: l2 := by
+    apply C03_HS_U_prefix_complete E rank _ R fuel k s' _ b h p q (by simp) (E.ops.adjust pr w) (E.ops.adjust pr' w')
+      ⟨nt, w, pr, hw, hpr, rfl⟩ ⟨nt', w', pr', hw', hpr', rfl⟩
+    rw [hops]
+    show decide (pr' * w' < pr * w) = true
+    rw [← e1, ← e2]
+    exact decide_eq_true hlt
+  rcases List.mem_append.mp hmem with h1 | h2
+  · exact h1
+  · exfalso
+    have hpw := (List.pairwise_append.mp hsorted).2.1
+    rcases List.mem_cons.mp h2 with rfl | h3
+    · exact absurd hlt (Rat.lt_irrefl)
+    · have := (List.pairwise_cons.mp hpw).1 p h3
+      exact absurd hlt (Rat.not_lt.mpr this)
+
 def uRank (nt : UHS.UNT Nat) : Nat := nt.2
 
 theorem uE_rhyp : RHyp uE uRank (fun v : Rat => 0 ≤ v) :=
@@ -593,6 +639,13 @@ theorem uE_unamb : ∀ p, PS.U.unambiguousOn (uG.toUCFG u0) p = true := by
 example : ∀ k s' out b, UHS.take uE 60 k (UHS.St.empty uG) [] = some (s', out, b) →
     out.Pairwise (fun p q => PS.U.probU (uG.toUCFG u0) uG.toTags q ≤ PS.U.probU (uG.toUCFG u0) uG.toTags p) :=
   fun k s' out b h => C03_HS_U_sorted_probU uE uRank rfl uE_rhyp (altKeys_of_check uE (by decide)) u0 uE_unamb 60 k s' out b h
+
+/-- after 6 of the 22 programs (a proper prefix: the generator has not stopped) -/
+example : ∀ s' l1 l2 q p b, UHS.take uE 60 6 (UHS.St.empty uG) [] = some (s', l1 ++ q :: l2, b) →
+    PS.U.genU (uG.toUCFG u0) p = true →
+    PS.U.probU (uG.toUCFG u0) uG.toTags q < PS.U.probU (uG.toUCFG u0) uG.toTags p → p ∈ l1 :=
+  fun s' l1 l2 q p b h hp hlt =>
+    C03_HS_U_prefix_complete_probU uE uRank rfl uE_rhyp (altKeys_of_check uE (by decide)) u0 uE_unamb 60 6 s' l1 l2 q p b h hp hlt
 
 /-- the probabilities of the 22 programs of the example in the order of the enumeration -/
 example : (UHS.take uE 60 6 (UHS.St.empty uG) []).map (fun r => r.2.1.map (PS.U.probU (uG.toUCFG u0) uG.toTags)) =
